@@ -41,6 +41,7 @@ def run(ctx: Ctx) -> Result:
         def abi(self, args): log.append('cA'); return [b'A']
     class CB:
         def abi(self, args): log.append('cB'); return [b'B']
+        def __len__(self): return 0              # a contract object may well be falsy (e.g. an empty allow-list): it is an entry like any other
     contracts = {'cA': (b'A', CA()), 'cB': (b'B', CB())}
     from typing import Protocol, runtime_checkable
     @runtime_checkable
